@@ -58,6 +58,12 @@ FAMILIES = [
              "exhausted) with a recording policy: decision table by attempt number, or retry-errors-while-"
              "attempt<max; non-trivial = a call retried at least once that then returned; distinct by op "
              "sequence + policy parameters"),
+    trace.Family(
+        "c20mt", ["--scripts=12", "--len=3"], ["--scripts=300", "--len=4"],
+        nontrivial=lambda h, l: _param(h, "n", 1) >= 2 and any("calls=4000" in x or "calls=500" in x for x in l),
+        rule="real RoundRobin shared by 2-8 OS threads issuing bursts of 1..4000 calls each truly in parallel; the "
+             "per-backend counts must be those of C20_rr_balanced for the total so far; non-trivial = n>=2 and a "
+             "burst of >= 500 calls per thread"),
 ]
 
 ASSUMPTIONS = [
